@@ -308,8 +308,18 @@ func execute(sc scenario, cfgName, op string, fs []fault) (res result) {
 	if a := e.w.Audit(); a != "" {
 		panic("audit after prep: " + a)
 	}
-	priorsAtStart := len(e.priors)
-	_ = priorsAtStart
+	// the decrypt under test needs a record of the session's own partition
+	var decTarget *prior
+	for i := range e.priors {
+		if e.priors[i].part == e.part {
+			decTarget = &e.priors[i]
+			break
+		}
+	}
+	if op == "dec" && decTarget == nil {
+		e.producer(e.part, 1)
+		decTarget = &e.priors[len(e.priors)-1]
+	}
 	e.w.AEAD.TakeRetained()
 	e.w.KMS.TakeRetained()
 	ledStart := e.w.Led.Len()
@@ -334,7 +344,7 @@ func execute(sc scenario, cfgName, op string, fs []fault) (res result) {
 		case "enc":
 			drr, err = e.s.Encrypt(context.Background(), payload)
 		case "dec":
-			p0 := e.priors[0]
+			p0 := *decTarget
 			pt, err = e.s.Decrypt(context.Background(), *world.CopyDRR(p0.drr))
 			if err == nil && !bytes.Equal(pt, p0.payload) {
 				res.c02 = append(res.c02, verdict{"decrypt-wrong-bytes", "decrypt returned other bytes under faults"})
